@@ -37,7 +37,13 @@ class P:
                 items.append(("bin", o, ("un", p, A), B)); items.append(("bin", o, A, ("un", p, B)))
                 items.append(("un", p, ("bin", o, A, B))); items.append(("un", p, ("post", A, postfix[0])))
                 items.append(("post", ("un", p, A), postfix[0]))
+            for q in postfix:
+                items.append(("un", p, ("post", ("post", A, postfix[0]), q)))
+                items.append(("post", ("un", p, ("post", A, postfix[0])), q))
+                items.append(("post", ("post", ("un", p, A), postfix[0]), q))
         fixed = [(("PARSE:" + hx(progs.render_min(t, PT))), ("tree", progs.to_proto(t))) for t in items]
+        # the same trees with one redundant pair of parentheses around every operand
+        fixed += [(("PARSE:" + hx(progs.render_min(t, PT, rng, 1.0))), ("tree", progs.to_proto(t))) for t in items[:: (5 if tier == "quick" else 1)]]
         cases += flow.mk_cases("pairs", fixed)
         n = 3000 if tier == "quick" else 300000
         rnd = []
